@@ -399,7 +399,7 @@ def fill_bounded():
     from habutax.form import Jurisdiction
     cases = 0
     for k in (1, 2, 3):
-        keys = [(Jurisdiction.US, 0), (Jurisdiction.US, 7), (Jurisdiction.NC, 1)][:k]
+        keys = [(Jurisdiction.US, 47), (Jurisdiction.US, 7), (Jurisdiction.NC, 1)][:k]      # 7 before 47 as numbers, after it as text
         for perm in itertools.permutations(range(k)):
             for needs in itertools.product([False, True], repeat=k):
                 cases += 1
